@@ -3,6 +3,8 @@
 // Contracts for the gowp verifier (/verif): comment-only file, compiled only with -tags verif.
 package rfc3961
 
+// RFC 3961 6.3 (properties C05, C06): triple-DES CBC with a zero IV over the data zero-padded to whole blocks.
+//@ define zpad8(s, l) := ite(l % 8 != 0, seqcat(s, seqzeros(8 - l % 8)), s)
 //@ func crypto/rfc3961.DES3EncryptData(key, data, e) (iv, ct, err)
 //@   pure
 //@   trusted_frame returned slices are not tracked as fresh; in-place append into spare capacity cannot be excluded
@@ -10,24 +12,27 @@ package rfc3961
 //@   requires tagof(e) == typeid("crypto.Des3CbcSha1Kd")
 //@   ensures err == nil <==> et_encok(tagof(e), len(key), len(data))
 //@   ensures err == nil ==> len(ct) == et_ctlen(tagof(e), len(data))
+//@   ensures err == nil ==> bytes(ct) == et_E(tagof(e), bytes(key), zpad8(bytes(data), len(data)))
 //@ func crypto/rfc3961.DES3DecryptData(key, data, e) (pt, err)
 //@   pure
 //@   trusted_frame returned slices are not tracked as fresh; in-place append into spare capacity cannot be excluded
 //@   requires tagof(e) == typeid("crypto.Des3CbcSha1Kd")
 //@   ensures err == nil <==> et_decok(tagof(e), len(key), len(data))
 //@   ensures err == nil ==> len(pt) == len(data)
+//@   ensures err == nil ==> bytes(pt) == et_D(tagof(e), bytes(key), bytes(data))
 //@   ensures err != nil ==> len(pt) == 0
 //@ func crypto/rfc3961.DES3DecryptMessage(key, ciphertext, usage, e) (pt, err)
 //@   pure
 //@   trusted_frame returned slices are not tracked as fresh; in-place append into spare capacity cannot be excluded
+//@   requires tagof(e) == typeid("crypto.Des3CbcSha1Kd")
 //@   ensures err != nil ==> len(pt) == 0
+//@   ensures err == nil ==> dec_ok_3961(tagof(e), bytes(key), usage, bytes(ciphertext))
+//@   ensures err == nil ==> bytes(pt) == seqsub(dec_body(tagof(e), bytes(key), usage, bytes(ciphertext)), et_confounder(tagof(e)), len(ciphertext) - et_hmacbits(tagof(e)) / 8)
 //@ func crypto/rfc3961.DES3EncryptMessage(key, message, usage, e) (iv, ct, err)
 //@   pure
 //@   trusted_frame returned slices are not tracked as fresh; in-place append into spare capacity cannot be excluded
-//@ func crypto/rfc3961.VerifyIntegrity(key, ct, pt, usage, e) (ok)
-//@   pure
-//@   requires et_known(tagof(e))
-//@   trusted_frame returned slices are not tracked as fresh; in-place append into spare capacity cannot be excluded
+//@   requires tagof(e) == typeid("crypto.Des3CbcSha1Kd")
+//@   ensures err == nil ==> len(lastRandom) == et_confounder(tagof(e)) && bytes(ct) == enc_3961(tagof(e), bytes(key), usage, zpad8(seqcat(lastRandom, bytes(message)), 8 + len(message)))
 //@ func crypto/rfc3961.DeriveRandom(key, usage, e) (r, err)
 //@   pure
 //@   trusted_frame returned slices are not tracked as fresh; in-place append into spare capacity cannot be excluded
